@@ -212,7 +212,8 @@ func (ch *chain) add(s HSpec, store bool) *types.WorkObject {
 	return wo
 }
 
-func hashZ(h common.Hash) *big.Int { return new(big.Int).SetBytes(h.Bytes()) }
+// hashZ: the identity of a block in the model = the first 8 bytes of its hash (projection; keeps the Coq terms small)
+func hashZ(h common.Hash) *big.Int { return new(big.Int).SetBytes(h.Bytes()[:8]) }
 
 // coqHeader prints the model header for the fabricated object as a node of context ctx sees it.
 func coqHeader(ch *chain, wo *types.WorkObject, s HSpec) string {
@@ -309,6 +310,35 @@ func (c *ctxT) runOrder(cs Case) string {
 		}
 		if r1.order < common.PRIME_CTX || r1.order > common.ZONE_CTX {
 			c.rep.Fail("CalcOrder:order-range", "order outside {0,1,2}", cs)
+		}
+		// monitor (the protocol's threshold rule, restated): prime iff entropy > zoneThreshold + log2(primeTarget) and
+		// recorded region+zone deltas + entropy > primeTarget*zoneThreshold/2; else region iff the same with the region
+		// target and the zone delta only; else zone.  The returned entropy is the intrinsic entropy of the seal.
+		ie := common.IntrinsicLogEntropy(common.BytesToHash(z0(s.Pow).Bytes()))
+		zt := zoneThreshold(z0(s.Diff))
+		if zt != nil {
+			pet, ret := params.PrimeEntropyTarget(s.Expansion), params.RegionEntropyTarget(s.Expansion)
+			above := func(tgt *big.Int, deltas ...string) bool {
+				thr := new(big.Int).Add(zt, common.LogBig(tgt))
+				sum := new(big.Int).Set(ie)
+				for _, d := range deltas {
+					sum.Add(sum, z0(d))
+				}
+				lim := new(big.Int).Div(new(big.Int).Mul(tgt, zt), big.NewInt(2))
+				return ie.Cmp(thr) > 0 && sum.Cmp(lim) > 0
+			}
+			want := common.ZONE_CTX
+			if above(pet, s.PD[1], s.PD[2]) {
+				want = common.PRIME_CTX
+			} else if above(ret, s.PD[2]) {
+				want = common.REGION_CTX
+			}
+			if r1.order != want {
+				c.rep.Fail("CalcOrder:thresholds", fmt.Sprintf("order %d but the threshold rule gives %d", r1.order, want), cs)
+			}
+			if r1.entropy.Cmp(ie) != 0 {
+				c.rep.Fail("CalcOrder:entropy", "returned entropy is not the intrinsic entropy of the pow hash", cs)
+			}
 		}
 		c.rep.Nontrivial("order:" + r1.class())
 	}
